@@ -899,7 +899,12 @@ DLLIMPORT cfg_value_t *cfg_setopt(cfg_t *cfg, cfg_opt_t *opt, const char *value)
 		}
 		val = (cfg_value_t *)opt->simple_value.ptr;
 	} else {
-		if (is_set(CFGF_RESET, opt->flags)) {
+		/*
+		 * A scalar holding its one default keeps it until the new value
+		 * is known to be good, its slot is simply overwritten below.
+		 */
+		if (is_set(CFGF_RESET, opt->flags) &&
+		    (opt->nvalues != 1 || is_set(CFGF_MULTI, opt->flags) || is_set(CFGF_LIST, opt->flags))) {
 			cfg_free_value(opt);
 			opt->flags &= ~CFGF_RESET;
 		}
@@ -1111,6 +1116,7 @@ DLLIMPORT cfg_value_t *cfg_setopt(cfg_t *cfg, cfg_opt_t *opt, const char *value)
 		return NULL;
 	}
 
+	opt->flags &= ~CFGF_RESET;
 	opt->flags |= CFGF_MODIFIED;
 
 	return val;
